@@ -4,7 +4,6 @@ import (
 	"fmt"
 	"go/types"
 	"go/token"
-	"regexp"
 	"strings"
 
 	"golang.org/x/tools/go/ssa"
@@ -137,6 +136,7 @@ func checkC09(c *Ctx, r *Report) {
 	r.rule("C09.R1", "evict after grow: each store size=size+x is followed by evictIfNeeded() before return; evictIfNeeded exits only on size<=capacity or Len()<=0; each removal subtracts len(entry.data)", 4)
 	r.rule("C09.R2", "frozen bytes: no append(x[:k],…), copy(x,…) or element store where x is loaded from cacheEntry.data", 1)
 	r.rule("C09.R3", "read-only consumers of GetSegment's result at every call site", 2)
+	r.rule("C09.R6", "every return of SetSegment is preceded by a write of cacheEntry.data or a delete from the index", 1)
 	r.rule("C09.R4", "makeKey format: exactly one string verb, in first position; the remaining verbs are %d", 1)
 
 	// ---- R1
@@ -351,24 +351,77 @@ func checkC09(c *Ctx, r *Report) {
 
 	// ---- R4
 	if mk := needFn(m, r, "C09.R4", pkgCache, "makeKey"); mk != nil {
-		for _, sp := range findCalls(mk, "fmt.Sprintf") {
-			format, ok := constString(sp.Common().Args[0])
-			verbs := regexp.MustCompile(`%[-+# 0-9.]*[a-zA-Z]`).FindAllString(format, -1)
-			good := ok && len(verbs) >= 2
-			for i, v := range verbs {
-				last := v[len(v)-1]
-				if i == 0 {
-					if last != 's' && last != 'd' {
-						good = false
-					}
-				} else if last != 'd' {
-					good = false
+		// the key is ‹topic› followed by numeric components, each set off by a literal separator:
+		// read from the right, the numbers and separators are unambiguous whatever the topic contains
+		n := 0
+		for _, blk := range mk.Blocks {
+			ret, ok := blk.Instrs[len(blk.Instrs)-1].(*ssa.Return)
+			if !ok || len(ret.Results) != 1 {
+				continue
+			}
+			n++
+			cs := mergeLits(strShape(m, ret.Results[0], 1))
+			nv, why := 0, ""
+			for i, c := range cs {
+				if c.Var == nil {
+					continue
+				}
+				nv++
+				if !c.Num && i != 0 {
+					why = "a string component after the first position"
+				}
+				if i > 0 && cs[i-1].Var != nil {
+					why = "two components with no separator between them"
 				}
 			}
-			if good {
-				r.ok("C09.R4", "makeKey format injective", m.Pos(sp.Pos()), fmt.Sprintf("%q", format))
+			if nv < 2 {
+				why = "fewer than two components"
+			}
+			if why == "" {
+				r.ok("C09.R4", "makeKey format injective", m.Pos(ret.Pos()), shapeString(cs))
 			} else {
-				r.viol("C09.R4", "makeKey format injective", m.Pos(sp.Pos()), fmt.Sprintf("format %q has a string verb after the first position", format))
+				r.viol("C09.R4", "makeKey format injective", m.Pos(ret.Pos()), fmt.Sprintf("key shape %s has %s", shapeString(cs), why))
+			}
+		}
+		if n == 0 {
+			r.unresolved("C09.R4", "makeKey format injective", "makeKey has no single-value return")
+		}
+	}
+
+	// ---- R6: SetSegment cannot return with the key still mapped to the bytes stored before: every
+	// path from entry to a return writes a cacheEntry.data (the update of the existing entry, or the
+	// construction of the new one) or takes the key out of the index. An early return in front of
+	// that ("too large to keep", "unchanged") leaves a later lookup with the old bytes.
+	if ss := needFn(m, r, "C09.R6", pkgCache, "(*SegmentCache).SetSegment"); ss != nil {
+		replaces := func(in ssa.Instruction) bool {
+			switch x := in.(type) {
+			case *ssa.Store:
+				if fa, ok := x.Addr.(*ssa.FieldAddr); ok {
+					if tn, f, _, ok := fieldAddrInfo(fa); ok && f == "data" && strings.HasSuffix(tn, "cacheEntry") {
+						return true
+					}
+				}
+			case *ssa.Call:
+				if calleeName(&x.Call) == "builtin.delete" {
+					if _, f, _, ok := fieldOf(x.Call.Args[0]); ok && f == "items" {
+						return true
+					}
+				}
+			}
+			return false
+		}
+		n := 0
+		for _, b := range ss.Blocks {
+			ret, ok := b.Instrs[len(b.Instrs)-1].(*ssa.Return)
+			if !ok {
+				continue
+			}
+			n++
+			key := fmt.Sprintf("SetSegment return #%d: the key's entry was replaced or removed", n)
+			if ok, path := mustPassBefore(m, ss, ret, replaces); ok {
+				r.ok("C09.R6", key, m.Pos(ret.Pos()), "")
+			} else {
+				r.viol("C09.R6", key, m.Pos(ret.Pos()), "returns with whatever was cached for the key before still in place: "+path)
 			}
 		}
 	}
